@@ -940,7 +940,16 @@ func (f *Frame) kindInvariant(v *Term, t types.Type) {
 	}
 	si := f.structInfo(t)
 	if v.size > 12 {
-		return
+		if v.size > 60 || mentionsBound(v) {
+			return
+		}
+		// a larger term (an element of a slice reached through a few fields): name it first
+		key := "kindinv:" + v.String()
+		if f.ctx.assumed[key+"#named"] {
+			return
+		}
+		f.ctx.assumed[key+"#named"] = true
+		v = f.ctx.define("ty", v)
 	}
 	f.kindInvariantOn(si, "kindinv:"+v.String(), func(i int) *Term { return si.Get(v, i) })
 }
@@ -981,6 +990,13 @@ func (f *Frame) containerInvariants(st *State, l LocVal) {
 			root := f.readRoot(st, l)
 			if root.size <= 14 {
 				f.assumeWf(st, root, rt)
+			} else if root.size <= 60 {
+				// an element reached through a few fields (def.Disjunction.Branches[1]): name it first
+				key := "wfroot:" + root.String()
+				if !f.ctx.assumed[key] {
+					f.ctx.assumed[key] = true
+					f.assumeWf(st, f.ctx.define("el", root), rt)
+				}
 			}
 		}
 	}
